@@ -107,8 +107,38 @@ def rand_mask(rng, E_block, symmetric=True):
     return M
 
 
+def offset_case(rng, *, hermitian=True, fmt=None, max_params=2, N=3):
+    """One block whose levels have a large common offset and unit spacings (all float operations stay
+    exact: differences are +-1, +-2). Exercises tolerance handling that is absolute in the library:
+    a relative tolerance would treat these levels as degenerate."""
+    fmt = fmt or rng.choice(["dense", "sparse", "dense", "sympy"])
+    n = rng.randint(2, 4)
+    off = 2 ** rng.choice([20, 24, 30])
+    levels = [rng.choice([0, 1, 2]) for _ in range(n)]
+    if len(set(levels)) == 1:
+        levels[0] = (levels[0] + 1) % 3
+    E = [G(Fr(off + v)) for v in levels]
+    nparam = rng.randint(1, max_params)
+    sub = [0] * n
+    mode = rng.random()
+    if mode < 0.4:
+        fully = None
+    elif mode < 0.7:
+        fully = [0]
+    else:
+        fully = {"0": rand_mask(rng, E, symmetric=hermitian)}
+    H = {key((0,) * nparam): gq.enc(diag_matrix(E))}
+    cplx = rng.random() < 0.5
+    for o in [o for o in gq.orders_upto(nparam, 2) if sum(o) >= 1]:
+        if sum(o) == 1 or rng.random() < 0.25:
+            H[key(o)] = gq.enc(rand_matrix(rng, n, herm=hermitian, cplx=cplx, dyadic=(fmt != "sympy"), density=1.0))
+    return dict(sub=sub, nparam=nparam, N=N, H=H, hermitian=hermitian, fully=fully, fmt=fmt)
+
+
 def random_case(rng, *, hermitian=True, fmt=None, max_blocks=3, max_size=3, max_params=2, N=3,
-                allow_fully=True, allow_mask=True, cplx=None):
+                allow_fully=True, allow_mask=True, cplx=None, offset_prob=0.12):
+    if rng.random() < offset_prob:
+        return offset_case(rng, hermitian=hermitian, fmt=fmt, max_params=max_params, N=N)
     fmt = fmt or rng.choice(["sympy", "sympy", "dense", "sparse"])
     exactfloat = fmt != "sympy"
     nb = rng.randint(1, min(max_blocks, 3) if exactfloat else max_blocks)
@@ -131,7 +161,18 @@ def random_case(rng, *, hermitian=True, fmt=None, max_blocks=3, max_size=3, max_
             fully = [0] if rng.random() < 0.5 else None  # None => library default (0,)
         else:
             k = rng.randint(1, nb)
-            fully = sorted(rng.sample(blocks, k))
+            pool = blocks[1:] if (nb >= 2 and rng.random() < 0.5) else blocks  # often NOT a prefix 0..k-1
+            fully = sorted(rng.sample(pool, min(k, len(pool))))
+        # make the fully diagonalised blocks non-trivial where the level pool allows it: distinct energies
+        if fully and not exactfloat:
+            for b in fully:
+                idx = [i for i in range(len(sub)) if sub[i] == b]
+                vals = sorted({int(E[i].re) for i in range(len(sub)) if sub[i] == b})
+                lo = min(vals)
+                cand = [lo + 13 * t for t in range(len(idx))]  # distinct, far from the other blocks' pools (|v| <= 6)
+                if len(idx) >= 2 and rng.random() < 0.7:
+                    for i, v in zip(idx, cand):
+                        E[i] = G(Fr(v + 100 * (b + 1)), E[i].im)
     elif allow_mask and mode < 0.6:
         fully = {}
         for b in rng.sample(blocks, rng.randint(1, nb)):
